@@ -126,7 +126,7 @@ def merge_rules(R, pfx="C07"):
     if rv is not None:
         some = AggSink("core::option::Option", "Some", dest_ty="SignedRegister")
         R.gate(pfx + ".reg.verify", rv, some, [[CallGuard([SR + "::verify"], ("Ok",), "register.verify() is Ok")]],
-               descr="register_validation yields a register to store only after verify()", min_sinks=2)
+               descr="register_validation yields a register to store only after verify()")
         prep(rv)
         g = cfg_of(rv)
         # the Some reached when present_locally holds the verified merge
